@@ -417,7 +417,7 @@ def _(w, e):
 # -- names and data -----------------------------------------------------------------
 @op("set_name")
 def _(w, e):
-    need(w, e["on"]).name = e["v"]
+    need(w, e["on"]).name = _value(e["v"])
 
 
 @op("del_name")
@@ -425,8 +425,15 @@ def _(w, e):
     del need(w, e["on"]).name
 
 
+class Label(str):
+    """A string subclass (a front end's token class that also carries a source position, say)."""
+
+
 def _value(v):
-    """Event values are JSON: {"__tuple__": [...]} stands for a tuple (which may hold mutable items)."""
+    """Event values are JSON: {"__tuple__": [...]} stands for a tuple (which may hold mutable items),
+    {"__strsub__": "x"} for an instance of a str subclass."""
+    if isinstance(v, dict) and set(v) == {"__strsub__"}:
+        return Label(v["__strsub__"])
     if isinstance(v, dict) and set(v) == {"__tuple__"}:
         return tuple(_value(x) for x in v["__tuple__"])
     if isinstance(v, list):
